@@ -20,7 +20,7 @@ func init() {
 		ID:    "C09",
 		Level: "exploration",
 		Rule: "program = SecAction initialising tx.t=2, then 1-2 (quick) / 1-3 (thorough) rules of phase 2, each = target {ARGS_GET, ARGS_GET:a, REQUEST_HEADERS:X-H} x operator `@rx ^(x)(.*)` x 1-2 actions from " +
-			"{setvar:tx.s=+1, =+3, =-1, =5, =+%{tx.t}, tx.u=%{matched_var}, !tx.s, tx.s (flag), tx.n_%{matched_var_name}=+1, capture+tx.c=%{tx.1}, msg with %{matched_var}} x severity x optional chain link with its own setvar x optional multiMatch+t:lowercase, " +
+			"{setvar:tx.s=+1, =+3, =-1, =5, =+%{tx.t}, tx.u=%{matched_var}, !tx.s, tx.s (flag), tx.n_%{matched_var_name}=+1, tx.%{matched_var}=+1 (key is one macro), capture+tx.c=%{tx.1}, msg with %{matched_var}} x severity x optional chain link with its own setvar x optional multiMatch+t:lowercase, " +
 			"then a threshold rule `TX:s @gt 2 -> deny`; requests carry 0..3 matching values per rule (repeated names). " +
 			"Oracle: an arithmetic reference model of the TX collection (actions once per matched value, in evaluation order; link actions per matched value of the link; starter's deny once per completed chain), HIGHEST_SEVERITY = min, per-match messages, threshold interruption. " +
 			"distinct_nontrivial = distinct (program, request) in which some rule matched >= 2 values or a chain was completed",
@@ -102,6 +102,8 @@ var actionMenu = [][]string{
 	{"setvar:tx.s=+%{tx.t}", "setvar:tx.s=-%{tx.t}", "setvar:tx.s=+1"},
 	{"setvar:tx.s=+1", "setvar:!tx.s", "setvar:tx.s=+3"}, // set, delete, set again: per matched value
 	{"setvar:tx.k=1", "setvar:!tx.k", "setvar:tx.k=2", "setvar:tx.s=+1"},
+	{"setvar:tx.%{matched_var}=+1"},                          // the whole key is one macro
+	{"setvar:tx.%{matched_var}=+1", "setvar:!tx.%{matched_var}"}, // ... also when deleting
 }
 
 var targets = []string{"ARGS_GET", "ARGS_GET:a", "REQUEST_HEADERS:X-H"}
